@@ -18,6 +18,7 @@ class VariantData;
 class VariantWithId;
 
 class ResourceManager {
+  ARDUINOJSON_VERIF_FRIEND
   union SlotData {
     VariantData variant;
 #if ARDUINOJSON_USE_EXTENSIONS
